@@ -14,6 +14,11 @@ use std::time::{Duration, Instant};
 
 pub const VERIF_DIR: &str = "/verif";
 
+/// where evidence/ and replays/ go (VFY_OUT overrides it for development runs against a scratch copy of the repository)
+pub fn out_dir() -> String {
+    std::env::var("VFY_OUT").unwrap_or_else(|_| VERIF_DIR.to_string())
+}
+
 #[derive(Debug, Deserialize)]
 struct KnownFinding {
     status: String,
@@ -170,7 +175,7 @@ pub fn check(prop_id: &str, quick: bool) -> i32 {
             last_mtime: None,
         });
     }
-    let stall_limit = Duration::from_secs(if quick { 120 } else { 300 });
+    let stall_limit = Duration::from_secs(if quick { 60 } else { 150 });
     let mut pending: Vec<Worker> = workers;
     let mut lost: Vec<(usize, PathBuf, bool)> = vec![]; // shard, journal, stalled
     while !pending.is_empty() {
@@ -212,7 +217,12 @@ pub fn check(prop_id: &str, quick: bool) -> i32 {
         }
     }
     // 3. lost workers: re-run the journalled case alone
+    let mut confirmed_from_lost = false;
     for (shard, journal, stalled) in lost {
+        if confirmed_from_lost {
+            // one confirmed reproduction is enough; the other lost workers most likely met the same thing
+            continue;
+        }
         let case = std::fs::read(&journal).ok().and_then(|b| serde_json::from_slice::<Value>(&b).ok());
         let Some(case) = case.filter(|c| !c.is_null()) else {
             infra.push(format!("worker {shard} was lost ({}) without a journalled case", if stalled { "stalled" } else { "died" }));
@@ -226,6 +236,9 @@ pub fn check(prop_id: &str, quick: bool) -> i32 {
         let mut last_out = String::new();
         for _ in 0..2 {
             let (code, out, timed_out) = replay_alone(prop_id, &f, Duration::from_secs(60));
+            if code == Some(0) {
+                break; // passes alone: no need for a second run
+            }
             last_out = out;
             match code {
                 Some(0) => {}
@@ -233,6 +246,9 @@ pub fn check(prop_id: &str, quick: bool) -> i32 {
                 _ if timed_out => hangs += 1,
                 _ => crashes += 1,
             }
+        }
+        if fails == 2 || (hangs == 2 && meta.hang_is_violation) || (crashes == 2 && prop_id == "C18") {
+            confirmed_from_lost = true;
         }
         if fails == 2 {
             let msg = last_out.lines().find(|l| l.starts_with("MESSAGE ")).map(|l| l[8..].to_string()).unwrap_or_default();
@@ -263,7 +279,7 @@ pub fn check(prop_id: &str, quick: bool) -> i32 {
     // 4. known findings and replay files
     let mut real: Vec<(Violation, PathBuf)> = vec![];
     let mut known_hits: Vec<String> = vec![];
-    let replays = Path::new(VERIF_DIR).join("replays");
+    let replays = Path::new(&out_dir()).join("replays");
     let _ = std::fs::create_dir_all(&replays);
     for (v, path) in violations {
         if let Some(k) = known.iter().find(|k| k.status == "open" && k.property == prop_id && k.signature == v.signature) {
@@ -363,7 +379,7 @@ fn write_evidence(meta: &PropMeta, tier: &str, seed: u64, st: &Stats, distinct: 
         "wall_s": (wall * 100.0).round() / 100.0,
         "violations": nviol,
     });
-    let dir = Path::new(VERIF_DIR).join("evidence");
+    let dir = Path::new(&out_dir()).join("evidence");
     let _ = std::fs::create_dir_all(&dir);
     let p = dir.join(format!("{}.json", meta.id));
     std::fs::write(&p, serde_json::to_vec_pretty(&ev).unwrap()).expect("write evidence");
